@@ -1092,7 +1092,7 @@ class _PolyHelper2D:
             )
             # rearrange the vandermonde such that it matches the typical A c = b where b
             # is the flattened version of y and c are the coefficients
-            self.vandermonde = np.polynomial.polynomial.polyvander2d(
+            vandermonde = np.polynomial.polynomial.polyvander2d(
                 *np.meshgrid(mapped_x, mapped_z, indexing='ij'),
                 [poly_orders[0], poly_orders[1]]
             ).reshape((-1, (poly_orders[0] + 1) * (poly_orders[1] + 1)))
@@ -1104,7 +1104,10 @@ class _PolyHelper2D:
                 ):
                     # 0 designates pure z or x terms
                     if 0 not in val and any(v > max_cross for v in val):
-                        self.vandermonde[:, idx] = 0
+                        vandermonde[:, idx] = 0
+            # only set the attribute once the cross terms are removed so that other threads
+            # using this object never see a partially completed Vandermonde
+            self.vandermonde = vandermonde
 
         self.poly_order = poly_orders
         self.max_cross = max_cross
